@@ -40,7 +40,8 @@ fn table(rng: &mut Rng, upper: bool) -> (String, Vec<(String, Vec<(String, Strin
             let mut msgs = vec![];
             for key in ["disconnect_no_target", "disconnect_timeout"] {
                 if rng.chance(5, 6) {
-                    let text = format!("{key} in {loc} #{}", rng.below(1000));
+                    // plain text with multi-byte characters now and then (the length prefix counts bytes)
+                    let text = if rng.chance(1, 3) { format!("{key} für {loc} — nö №{} ✓", rng.below(1000)) } else { format!("{key} in {loc} #{}", rng.below(1000)) };
                     msgs.push((key.to_string(), if rng.bool() { json!({"text": text, "bold": true}).to_string() } else { text }));
                 }
             }
